@@ -187,6 +187,26 @@ def strip_comments(txt):
     return "".join(out)
 
 
+def coqchk(props_file, timeout=5400):
+    """Independent re-check of the compiled property file and everything it depends on (thorough tier)."""
+    mod = "GB." + props_file[:-2].replace("/", ".")
+    rc, out = sh(["coqchk", "-silent", "-o", "-Q", ".", "GB", mod], cwd=COQ, timeout=timeout)
+    summary = {}
+    key = None
+    for line in out.splitlines():
+        line = line.strip()
+        if line.startswith("* "):
+            key, _, rest = line[2:].partition(":")
+            summary[key.strip()] = rest.strip()
+        elif key and line and not line.startswith("="):
+            summary[key.strip()] = (summary[key.strip()] + " " + line).strip()
+    clean = (rc == 0 and summary.get("Axioms") == "<none>"
+             and summary.get("Constants/Inductives relying on type-in-type") == "<none>"
+             and summary.get("Constants/Inductives relying on unsafe (co)fixpoints") == "<none>"
+             and summary.get("Inductives whose positivity is assumed") == "<none>")
+    return dict(ok=clean, rc=rc, summary=summary, log=out[-2000:])
+
+
 def run_coq_cases(workdir, name, text, timeout=1500):
     """compile one harness-written case file against the built model; returns (rc, output)"""
     os.makedirs(workdir, exist_ok=True)
